@@ -15,7 +15,9 @@ CLAIMED = {
          'Encoders, br_skey_decoder, br_pkey_decoder, br_pem_encode and br_pem_decoder are driven with fixture and synthetic keys and every PEM payload length 0..2000 x flags; outputs are compared byte for byte with OpenSSL and with the certificate decoder; malformed armour must raise an error without spurious data. Three documented-vs-actual discrepancies in T0 bytecode are listed in known_findings.json.',
          'Trusts OpenSSL 3.0 libcrypto encoders as reference; sampled keys; T0 bytecode cannot be regenerated here (no mono).'), 'C02': ('fault_enumeration', 'runtime monitoring: exhaustive single-fault injection on recorded protected streams replayed against a snapshotted receiver, with prefix/rejection oracle; records forged by an independent record layer',
          'For each of the 75 (suite, version) pairs the real receiver engine is restored to its post-handshake state for every fault: every bit of every record, every record-level edit at every index, truncation at every byte, cross-connection splice, forged CBC records of every padding length (accepted when conformant, rejected for each wrong padding/MAC byte) and forged AEAD records; delivered bytes must be a prefix ending before the first touched record and the engine must be closed with a non-zero error once the touched record is complete. ASan/UBSan and the C06 monitor stay armed.',
-         'Short sessions (3-5 records); single edits plus 200 random double edits per pair; OpenSSL EVP trusted for forging.'),
+         'Short sessions (3-5 records); single edits plus 200 random double edits per pair; OpenSSL EVP trusted for forging.'), 'C03': ('fault_enumeration', 'runtime monitoring: per-byte and per-record MITM fault injection on deterministic handshake replays, scripted validator / rogue policy / mismatching keys, with a never-ready / no-data oracle',
+         'Each of 105 handshake scenarios (5 key exchanges x 3 versions x full/resumed/renegotiation x client-auth kinds) is replayed on the real engines once per fault: every byte of every handshake and CCS record of both flights is altered (quick: 6 scenarios complete, the rest every 8th byte; thorough: all bytes x 3 XOR values), plus drop/duplicate/swap/substitute at every record index; the destination endpoint must never become ready (or re-key), no application byte may be delivered, protected records must be rejected on receipt. 245 authentication cases script the X.509 validator, keys, server policy, version ranges and fallback SCSV, with honest controls.',
+         'An endpoint left waiting after its peer failed counts as never ready (no transport-closed API at engine level); a fully malicious server beyond what the policy API or a MITM can express is not modelled; error codes are not judged.'),
 }
 
 ENGINES = []
